@@ -90,7 +90,7 @@ def build(flavour="O1", repo=None, tag=None):
             open(stamp, "w").write(repo)
         sh(["ninja", "-C", libdir, "-j", str(NCPU), "nifly"], env=env, check=True, timeout=1500)
         hdir = os.path.join(bdir, "harness")
-        if not os.path.exists(os.path.join(hdir, "build.ninja")):
+        if True:    # always re-configure: the harness sources are globbed
             os.makedirs(hdir, exist_ok=True)
             sh(["cmake", "-G", "Ninja", "-S", HARNESS, "-B", hdir, "-DCMAKE_BUILD_TYPE=None",
                 "-DCMAKE_CXX_COMPILER=" + cxx, "-DCMAKE_CXX_FLAGS=" + flags, "-DNIFLY_REPO=" + repo,
